@@ -42,6 +42,13 @@ def generate(rnd, tier, index=0):
     any_ctx = any(is_contextual(c) for c in cfgs)
     n = rnd.choice([rnd.randint(12, 48), 5 * rnd.randint(3, 10), 10 * rnd.randint(2, 6)])
     rk = "binary" if any_ts else ("nonneg" if regime == "exact" else "nonneg_real")
+    if any_ts and rnd.random() < 0.5:
+        # Thompson Sampling bandits with a binarizer inside the Simulator (raw rewards for the statistics, converted
+        # rewards for the policy); every TS bandit of the run needs one then, because the rewards are no longer binary
+        for c in cfgs:
+            if c["lp"][0] == "ThompsonSampling":
+                c["lp"][1]["binarizer"] = rnd.choice(["gt10", "arm_thr", "lt_arm", "ge5_int"])
+        rk = "anyint"
     omit = gen.some_omitted(rnd, arms) if rnd.random() < 0.3 else None
     rows = gen.gen_rows(rnd, arms, n, d, regime, rk, any_ctx, omit=omit)
     if omit and rnd.random() < 0.7:         # an arm that occurs only at the end (absent from an ordered train set)
